@@ -446,6 +446,9 @@ func (g *run) generated(n int) {
 		if i%2 == 0 {
 			g.chain(genChain(g.r))
 		}
+		if i%3 == 1 {
+			g.hist(genHist(g.r))
+		}
 	}
 }
 
@@ -600,7 +603,7 @@ func main() {
 	if *part == "wrap" {
 		repName = "C12W"
 	}
-	rep := vh.NewReport(repName, *tier, seed, "pairs (absolute base IRI, IRI reference) generated from the RFC 3987 grammar (hierarchical and opaque schemes, empty/absent authority, userinfo, ports, IP literals, non-ASCII and pct-encoded hosts, empty and dot segments, %xx of either case, empty vs absent query/fragment), byte-level mutations of the reference, bounded-exhaustive path pairs over a 5-component alphabet; non-trivial = the reference is relative and has a dot, a slash, a query, a fragment or is empty")
+	rep := vh.NewReport(repName, *tier, seed, "pairs (absolute base IRI, IRI reference) generated from the RFC 3987 grammar (hierarchical and opaque schemes, empty/absent authority, userinfo, ports, IP literals, non-ASCII and pct-encoded hosts, empty and dot segments, %xx of either case, empty vs absent query/fragment), byte-level mutations of the reference, bounded-exhaustive path pairs over a 5-component alphabet, chained re-basing histories and histories of 2-9 operations over the whole exported API of ParsedIRI / BaseIRI on one value (Parse, DropFragment, ResolveReference, URL, IsAbs, NewBaseIRI; bases ending in an empty or non-empty fragment at 45%); non-trivial = the reference is relative and has a dot, a slash, a query, a fragment or is empty")
 	// Fork: vh.NewRng(k+1) is vh.NewRng(k) shifted by one draw; the first output is a well-mixed hash of the seed.
 	rep.Cases = []vh.Case{} // never null in the JSON report
 	g := &run{r: vh.NewRng(seed).Fork(), rep: rep, tri: map[string][]string{}}
@@ -656,6 +659,14 @@ func main() {
 					rs = append(rs, un(t))
 				}
 				g.chain(un(f[1]), rs)
+			case len(f) >= 3 && (f[0] == "piri.hist" || f[0] == "iri.hist"):
+				ops := []hop{}
+				for _, t := range f[2:] {
+					if o, ok := hopOfTok(t); ok {
+						ops = append(ops, o)
+					}
+				}
+				g.hist(un(f[1]), ops)
 			case len(f) == 3 && f[0] == "piri.resolve":
 				g.wPair(un(f[1]), un(f[2]))
 			case len(f) == 2 && (f[0] == "piri.parse" || f[0] == "piri.base"):
@@ -684,6 +695,9 @@ func main() {
 		}
 		for _, c := range chainCorpus {
 			g.chain(c[0], c[1:])
+		}
+		for _, c := range histCorpus {
+			g.hist(c.b0, c.ops)
 		}
 		for _, w := range corpus {
 			g.pair(w[0], w[1])
